@@ -618,11 +618,13 @@ class CartesianRandomMaskFunc(RandomMaskFunc):
             along the fourth last dimension. Similarly for MaskFuncMode.MULTISLICE, the mask will be created for each
             slice along the fourth last dimension. Default: MaskFuncMode.STATIC.
         """
-        if not all((1 < center_fraction) and isinstance(center_fraction, int) for center_fraction in center_fractions):
+        # The typed configuration stores these values as floats (16 -> 16.0): accept any integral value.
+        if not all((1 < center_fraction) and float(center_fraction).is_integer() for center_fraction in center_fractions):
             raise ValueError(
                 f"Center fraction values should be integers greater then or equal to 1 corresponding to the number of "
                 f"center lines. Received {center_fractions}. For fractions, use `FastMRIMagicMaskFunc`."
             )
+        center_fractions = [int(center_fraction) for center_fraction in center_fractions]
         super().__init__(
             accelerations=accelerations,
             center_fractions=center_fractions,
@@ -884,11 +886,13 @@ class CartesianEquispacedMaskFunc(EquispacedMaskFunc):
             along the fourth last dimension. Similarly for MaskFuncMode.MULTISLICE, the mask will be created for each
             slice along the fourth last dimension. Default: MaskFuncMode.STATIC.
         """
-        if not all((1 < center_fraction) and isinstance(center_fraction, int) for center_fraction in center_fractions):
+        # The typed configuration stores these values as floats (16 -> 16.0): accept any integral value.
+        if not all((1 < center_fraction) and float(center_fraction).is_integer() for center_fraction in center_fractions):
             raise ValueError(
                 f"Center fraction values should be integers greater then or equal to 1 corresponding to the number of "
                 f"center lines. Received {center_fractions}. For fractions, use `FastMRIMagicMaskFunc`."
             )
+        center_fractions = [int(center_fraction) for center_fraction in center_fractions]
         super().__init__(
             accelerations=accelerations,
             center_fractions=center_fractions,
@@ -1173,11 +1177,13 @@ class CartesianMagicMaskFunc(MagicMaskFunc):
             along the fourth last dimension. Similarly for MaskFuncMode.MULTISLICE, the mask will be created for each
             slice along the fourth last dimension. Default: MaskFuncMode.STATIC.
         """
-        if not all((1 < center_fraction) and isinstance(center_fraction, int) for center_fraction in center_fractions):
+        # The typed configuration stores these values as floats (16 -> 16.0): accept any integral value.
+        if not all((1 < center_fraction) and float(center_fraction).is_integer() for center_fraction in center_fractions):
             raise ValueError(
                 f"Center fraction values should be integers greater then or equal to 1 corresponding to the number of "
                 f"center lines. Received {center_fractions}. For fractions, use `FastMRIMagicMaskFunc`."
             )
+        center_fractions = [int(center_fraction) for center_fraction in center_fractions]
         super().__init__(
             accelerations=accelerations,
             center_fractions=center_fractions,
